@@ -1,1 +1,37 @@
-From Verif Require Import Ecat.Sdo.
+(* C16 SDO transfers carry values byte-for-byte.
+   Model: Ecat/Sdo.v - the CoE messages Terminal.sdo_write produces
+   (expedited / normal / segmented, with subindex or complete access), the
+   assembly Terminal.sdo_read performs, and a protocol-conformant SDO server
+   (ETG.1000.6) that checks sizes and toggle bits. *)
+From Verif Require Import Ecat.Sdo Ecat.Sdo_proofs.
+
+(* download: for EVERY value (any length < 2^32), every mailbox size >= 24,
+   with a subindex or complete access, the conformant server ends up holding
+   exactly the value (it would abort on a wrong size or toggle bit) *)
+Theorem C16_download : forall mbx data index sub,
+  (24 <= mbx)%nat -> Z.of_nat (length data) < 4294967296 ->
+  srv_download (dl_requests mbx data index sub) = Some data.
+Proof. exact download_exact. Qed.
+Print Assumptions C16_download.
+
+(* upload: the client returns exactly the server's value; the toggle bits it
+   requested alternate starting at 0 *)
+Theorem C16_upload : forall mbx data index sub ca,
+  (24 <= mbx)%nat -> Z.of_nat (length data) < 4294967296 -> 0 <= index < 65536 ->
+  exists k, sdo_read (ul_responses mbx data index sub ca) index = Some (data, alt 0 k).
+Proof. exact upload_exact. Qed.
+Print Assumptions C16_upload.
+
+(* every mailbox message (6-byte header included) fits into the mailbox *)
+Theorem C16_fits : forall mbx data index sub ca, (24 <= mbx)%nat ->
+  Forall (fun p => (6 + length p <= mbx)%nat) (dl_requests mbx data index sub) /\
+  Forall (fun p => (6 + length p <= mbx)%nat) (ul_responses mbx data index 1 ca).
+Proof. intros. split; [now apply download_fits|now apply upload_fits]. Qed.
+Print Assumptions C16_fits.
+
+Example C16_nonvacuous :
+  let data := map Z.of_nat (seq 1 40) in
+  length (dl_requests 24 data 32768 (Some 3)) = 4%nat /\
+  srv_download (dl_requests 24 data 32768 (Some 3)) = Some data /\
+  sdo_read (ul_responses 24 data 32768 3 false) 32768 = Some (data, [0; 16; 0]).
+Proof. vm_compute. repeat split. Qed.
